@@ -460,6 +460,10 @@ def c12(ctx):
         ctx.add(out, lab, CR.rule_A1, ctx, prog, lab, rule='J3-A1')
         ctx.add(out, lab, BM.rule_CL1, ctx, prog, lab, rule='J3-CL1')
         ctx.add(out, lab, CT.rule_F11, ctx, prog, lab, rule='J3-F11')
+        if cfg['openmp']:
+            from . import purity as PUR
+            ctx.add(out, lab, CT.rule_F10, ctx, prog, lab, rule='J3-F10')
+            ctx.add(out, lab, PUR.rule_C6e, ctx, prog, lab, rule='J3-C6e')
     return out
 
 
